@@ -33,7 +33,7 @@ use std::pin::pin;
 use std::rc::Rc;
 use std::task::{Context, Poll, Waker};
 
-const CHUNK_BUDGET: u32 = 200_000;
+const CHUNK_BUDGET: u32 = 2_000_000;
 
 struct ChunkBudgetExceeded;
 
@@ -42,7 +42,11 @@ struct MemProvider {
     image: Rc<Vec<u8>>,
     sii8: bool,
     reads: Rc<Cell<u32>>,
+    /// the first `READ_LOG` accesses: (word address, first two words returned)
+    log: Rc<std::cell::RefCell<Vec<(u16, u16, u16)>>>,
 }
+
+const READ_LOG: usize = 3000;
 
 impl EepromDataProvider for MemProvider {
     async fn read_chunk(&mut self, start_word: u16) -> Result<impl Deref<Target = [u8]>, Error> {
@@ -57,6 +61,16 @@ impl EepromDataProvider for MemProvider {
         let mut out = heapless::Vec::<u8, 8>::new();
         for i in 0..len {
             let _ = out.push(*self.image.get(start + i).unwrap_or(&0xFF));
+        }
+        {
+            let mut log = self.log.borrow_mut();
+            if log.len() < READ_LOG {
+                log.push((
+                    start_word,
+                    u16::from_le_bytes([out[0], out[1]]),
+                    u16::from_le_bytes([out[2], out[3]]),
+                ));
+            }
         }
         Ok(out)
     }
@@ -92,18 +106,41 @@ fn poll_to_end<F: Future>(fut: F) -> Option<F::Output> {
     None
 }
 
-fn direct_parse(image: &[u8], sii8: bool, out: &mut Obj) {
+fn direct_parse(image: &[u8], sii8: bool, fields: bool, out: &mut Obj) {
     let reads = Rc::new(Cell::new(0u32));
     let provider = MemProvider {
         image: Rc::new(image.to_vec()),
         sii8,
         reads: reads.clone(),
+        log: Default::default(),
     };
-    let mut text = String::new();
+    let log = provider.log.clone();
+    /// Records the number of device accesses made when each line of the dump is complete.
+    struct MarkWriter {
+        text: String,
+        reads: Rc<Cell<u32>>,
+        marks: Vec<u32>,
+    }
+    impl std::fmt::Write for MarkWriter {
+        fn write_str(&mut self, s: &str) -> std::fmt::Result {
+            for _ in s.matches('\n') {
+                self.marks.push(self.reads.get());
+            }
+            self.text.push_str(s);
+            Ok(())
+        }
+    }
+    let mut mw = MarkWriter { text: String::new(), reads: reads.clone(), marks: Vec::new() };
     let r = catch_unwind(AssertUnwindSafe(|| {
         let eeprom = SubDeviceEeprom::verif_new(provider);
-        poll_to_end(eeprom.verif_dump(&mut text))
+        if fields {
+            poll_to_end(eeprom.verif_dump_fields(&mut mw))
+        } else {
+            poll_to_end(eeprom.verif_dump(&mut mw))
+        }
     }));
+    let text = mw.text;
+    let marks = mw.marks;
     let result = match r {
         Ok(Some(Ok(()))) => "ok".to_string(),
         Ok(Some(Err(_))) => "err:fmt".to_string(),
@@ -119,12 +156,20 @@ fn direct_parse(image: &[u8], sii8: bool, out: &mut Obj) {
     };
     out.insert("result".into(), json!(result));
     out.insert("chunk_reads".into(), json!(reads.get()));
+    out.insert(
+        "read_log".into(),
+        Value::Array(log.borrow().iter().map(|(a, w0, w1)| json!([a, w0, w1])).collect()),
+    );
     // Lines written before a panic / budget abort are kept.
     let dump: Vec<Value> = text
         .lines()
-        .map(|l| match l.split_once('=') {
-            Some((n, v)) => json!({"name": n, "value": v}),
-            None => json!({"name": "", "value": l}),
+        .enumerate()
+        .map(|(i, l)| {
+            let reads = marks.get(i).copied().unwrap_or(0);
+            match l.split_once('=') {
+                Some((n, v)) => json!({"name": n, "value": v, "reads": reads}),
+                None => json!({"name": "", "value": l, "reads": reads}),
+            }
         })
         .collect();
     out.insert("dump".into(), Value::Array(dump));
@@ -176,7 +221,7 @@ fn sii_log(frames: &[CapturedFrame], station: u16) -> Value {
     Value::Array(out)
 }
 
-fn op_ranges(case: &Value, env: &mut Env, out: &mut Obj) {
+fn op_ranges(case: &Value, image: &[u8], env: &mut Env, out: &mut Obj) {
     let md = env.md;
     let p = env.run(md.init_single_group::<16, 256>(simrun::now_ns));
     let Some(group) = put_phase(out, "", p) else {
@@ -208,6 +253,25 @@ fn op_ranges(case: &Value, env: &mut Env, out: &mut Obj) {
         let mut rj = Obj::new();
         rj.insert("word".into(), json!(word));
         rj.insert("via".into(), json!(via));
+        // what the image holds in the requested range (bytes beyond the device's memory: 0xFF),
+        // computed from the harness' own copy of the image
+        {
+            let want_len = match via {
+                "typed_u8" => 1,
+                "typed_u16" => 2,
+                "typed_u32" => 4,
+                "typed_u64" => 8,
+                _ => len,
+            };
+            let start = usize::from(word) * 2;
+            let expect: Vec<u8> = (0..want_len).map(|i| image.get(start + i).copied().unwrap_or(0xFF)).collect();
+            rj.insert("len".into(), json!(want_len));
+            rj.insert("expect".into(), bytes(&expect));
+            // bytes of the range that can be reached with 16 bit word addresses at all
+            let addressable = 0x2_0000usize.saturating_sub(start).min(want_len);
+            rj.insert("addressable_len".into(), json!(addressable));
+            rj.insert("in_image".into(), json!(start + want_len <= image.len() && addressable == want_len));
+        }
         macro_rules! typed {
             ($t:ty) => {{
                 match env.run(sd.eeprom_read::<$t>(md, word)) {
@@ -258,7 +322,13 @@ fn op_parse(case: &Value, image: &[u8], desc: Option<&sii_image::DeviceDescripti
         "overflow_checks".into(),
         json!(overflow_checks_enabled()),
     );
-    direct_parse(image, get_bool(case, "sii8", false), out);
+    let fields = get_bool(case, "fields", false);
+    direct_parse(image, get_bool(case, "sii8", false), fields, out);
+    if fields {
+        // the image as the parser saw it, without the trailing fill
+        let used = image.iter().rposition(|b| *b != 0xFF).map_or(0, |p| p + 1);
+        out.insert("image_prefix".into(), json!(&image[..used]));
+    }
 
     // (2) the real thing
     let seg = make_segment(case, image.to_vec(), desc);
@@ -402,10 +472,20 @@ fn op_alias(case: &Value, env: &mut Env, out: &mut Obj) {
 }
 
 pub fn run(case: &Value, _seed: u64) -> Obj {
-    let (image, desc) = match image_of_case(case) {
+    let (mut image, desc) = match image_of_case(case) {
         Ok(x) => x,
         Err(why) => return badcase(case, &why),
     };
+    // structured-then-mutated images: "mutate": [[byte offset, value], ..] applied to the encoded image
+    if let Some(ms) = case.get("mutate").and_then(|x| x.as_array()) {
+        for m in ms {
+            let off = m.get(0).and_then(|x| x.as_u64()).unwrap_or(0) as usize;
+            let v = m.get(1).and_then(|x| x.as_u64()).unwrap_or(0) as u8;
+            if let Some(b) = image.get_mut(off) {
+                *b = v;
+            }
+        }
+    }
     let mut out = Obj::new();
     out.insert("case".into(), case.clone());
     out.insert("image_len".into(), json!(image.len()));
@@ -416,12 +496,13 @@ pub fn run(case: &Value, _seed: u64) -> Obj {
     match op {
         "parse" => op_parse(case, &image, desc.as_ref(), &mut out),
         "ranges" | "alias" => {
+            let image_copy = image.clone();
             let seg = make_segment(case, image, desc.as_ref());
             let Some(mut env) = make_env(seg, 8, 1100, default_timeouts()) else {
                 return unsupported(case, "storage");
             };
             if op == "ranges" {
-                op_ranges(case, &mut env, &mut out);
+                op_ranges(case, &image_copy, &mut env, &mut out);
             } else {
                 op_alias(case, &mut env, &mut out);
             }
